@@ -277,3 +277,39 @@ Definition build (dom cod : bty) (bs : list bbox) (offs : list Z) : res bdiagram
 
 Definition build_b2r (dom cod : bty) (bs : list bbox) (offs : list Z) : res diagram :=
   do bd <- build dom cod bs offs; b2r bd.
+
+(* ------------------------------------------------------------------ decidable side conditions *)
+(* a box built by the public constructors without error whose backward
+   applications have a single object as left argument (cf. finding F16), all the
+   way down through curried diagrams, which must themselves be well-typed *)
+Fixpoint box_good (b : bbox) : bool :=
+  match b with
+  | XBA u => match u with [BUnder [_] _] => true | _ => false end
+  | XCurry dom cod boxes offs _ _ =>
+      forallb box_good boxes &&
+      match bscan dom boxes offs with Ok t => bty_eqb t cod | Err _ => false end
+  | _ => match bbox_check b with Ok _ => true | Err _ => false end
+  end.
+
+(* a well-typed biclosed diagram of such boxes *)
+Definition diagram_good (D : bdiagram) : bool :=
+  forallb box_good (xd_boxes D) &&
+  match bscan (xd_dom D) (xd_boxes D) (xd_offs D) with
+  | Ok t => bty_eqb t (xd_cod D)
+  | Err _ => false
+  end.
+
+(* the same without the restriction on backward applications *)
+Fixpoint box_built (b : bbox) : bool :=
+  match b with
+  | XCurry dom cod boxes offs _ _ =>
+      forallb box_built boxes &&
+      match bscan dom boxes offs with Ok t => bty_eqb t cod | Err _ => false end
+  | _ => match bbox_check b with Ok _ => true | Err _ => false end
+  end.
+Definition diagram_built (D : bdiagram) : bool :=
+  forallb box_built (xd_boxes D) &&
+  match bscan (xd_dom D) (xd_boxes D) (xd_offs D) with
+  | Ok t => bty_eqb t (xd_cod D)
+  | Err _ => false
+  end.
